@@ -95,6 +95,11 @@ func (w *world) projOracle(t *wTask, s uint64) string {
 
 func runC01(e *core.Env) error {
 	r := e.Rand
+	// the row builder over whole batches (Model/Insert, insert_exact / insert_batch_flat): "each matching log,
+	// transaction or trace yields its rows once and nothing else is present"
+	if err := runInsertBatches(e); err != nil {
+		return err
+	}
 	type pair struct{ b, c int }
 	var pairs []pair
 	for b := 1; b <= 9; b++ {
